@@ -84,6 +84,8 @@ KW = [
     ("Prefixed(Byte, Int16ub)", {}, "u16"), ("Prefixed(Int16ub, Bytes(this.n), includelength=True)", {"n": (0, 2)}, "bytes:n"), ("PrefixedArray(Byte, Byte)", {}, "list2"),
     ("Peek(Int16ub)", {}, "none"), ("Struct('kind'/Byte, 'next'/Peek(Int16ub), 'flag'/Byte)", {}, "struct_kf"), ("Sequence(Byte, Peek(Bytes(this._params.n)), Byte)", {"n": (0, 3)}, "seq_peek"),
     ("Struct('a'/Byte, 'o'/Optional(Int16ub))", {}, "struct_a_only"), ("FocusedSeq('b', 'a'/Peek(Int32ub), 'b'/Byte)", {}, "byte"),
+    ("ByteSwapped(Bytes(0))", {}, "bytes0"), ("BitsSwapped(Bytes(0))", {}, "bytes0"), ("Bitwise(Array(0, Bit))", {}, "list0"), ("BitStruct()", {}, "dict0"), ("Bytewise(Bytes(0))", {}, "bytes0"),
+    ("Struct('a'/Byte, 'z'/ByteSwapped(Bytes(0)), 'e'/BitStruct(), 'b'/Byte)", {}, "struct_azeb"), ("Transformed(Bytes(0), lambda b: b, 0, lambda b: b, 0)", {}, "bytes0"),
     ("Restreamed(Bytes(this.n), lambda b: b, 1, lambda b: b, 1, lambda n: n)", {"n": (0, 2)}, "bytes:n"),
     ("Transformed(Bytes(2), lambda b: b, 2, lambda b: b, 2)", {}, "bytes2"),
 ]
@@ -149,6 +151,14 @@ def _value(ctx, how, kw):
         return [ctx.bytes("v[0]", key(1)), ctx.int("v[1]", 0, 65535)]
     if k == "rawcopy":
         return dict(value=ctx.bytes("v", key(1)))
+    if k == "bytes0":
+        return b""
+    if k == "list0":
+        return []
+    if k == "dict0":
+        return {}
+    if k == "struct_azeb":
+        return dict(a=ctx.int("v.a", 0, 255), z=b"", e={}, b=ctx.int("v.b", 0, 255))
     if k == "u16":
         return ctx.int("v", 0, 65535)
     if k == "struct_bytebyte":
@@ -172,6 +182,8 @@ def instances(tier, seed):
             continue
         seen.add(src(s))
         out.append(dict(name="gen  " + src(s), params=dict(kind="gen", spec=J(s), tier=tier)))
+    for src_ in ("Pointer(this.off, Byte)", "Pointer(this.off, Int16ub)", "Struct('p'/Pointer(this._params.off, Byte), 'q'/Byte)", "Peek(Pointer(this.off, Byte))"):
+        out.append(dict(name="pointer leaves the position: " + src_, params=dict(kind="pointerpos", source=src_)))
     for source, keys, how in KW:
         out.append(dict(name="ctx  " + source, params=dict(kind="kw", source=source, keys={k: list(v) for k, v in keys.items()}, how=how, tier=tier)))
         for k in keys:
@@ -228,6 +240,21 @@ def harness(ctx, C, p):
             return "sized-greedy"
         return _exact(ctx, C, d, r.value, v, {}, p["tier"])
     d = mk(C, p["source"])
+    if kind == "pointerpos":
+        # sizeof says 0 (or the size of the sequential members): parsing from any position with any offset, negative ones
+        # (counted from the end) included, consumes exactly that
+        n = api.outcome(d.sizeof, off=0)
+        data = ctx.bytes("data", 5)
+        off = ctx.int("off", -5, 4)
+        start = ctx.choice("start", [0, 1, 3])
+        st = ctx.stream(data)
+        st.seek(start)
+        r = api.outcome(d.parse_stream, st, off=off)
+        if not r.ok:
+            return "reject"
+        ctx.check("sizeof answers for a Pointer", n.ok)
+        ctx.check("parse with offset %s consumes exactly sizeof bytes" % ("< 0" if ctx.fork(off < 0) else ">= 0"), st.tell() == start + n.value)
+        return "ok"
     if kind == "missing":
         kw = {k: ctx.int("kw." + k, lo, hi) for k, (lo, hi) in p["keys"].items() if k != p["drop"]}
         r = api.outcome(d.sizeof, **kw)
